@@ -16,15 +16,15 @@
    records for a whole run, calls made in Pool workers included; how many iterations / layers / ensemble
    members / mask phases a run has is data (a [shape]) the theorems quantify over.
 
-   Call sites modelled (line numbers of the repaired tree):
+   Call sites modelled (line numbers of emd/sift.py with the three C06 repairs applied):
      sift 453-471 (falsy imf_opts -> literal; keywords to get_next_imf)
-     _sift_with_noise 553-561 (keywords to sift, twice for noise_mode='flip')
-     ensemble_sift 645-648, complete_ensemble_sift 741-744 / 760-763 (positional starmap into _sift_with_noise)
-     complete_ensemble_sift 747-748 / 768-770 (positional starmap into sift)            [_v0: s_noise_v0]
-     get_next_imf_mask 844-864 (functools.partial(get_next_imf, ...) in a Pool)          [_v0: s_gnim_v0]
-     get_mask_freqs 895-902 and its call in mask_sift 1045                              [_v0: s_gmf_v0]
-     mask_sift 1076-1081, sift_second_layer 1153, mask_sift_second_layer 1204 (sift_args unpacked)
-     get_next_imf 117-138, interp_envelope 1399-1414, get_padded_extrema 1243-1253 (fall-backs)
+     _sift_with_noise 553-561 (keywords to sift, a second time for noise_mode='flip')
+     ensemble_sift 645-648, complete_ensemble_sift 741-744 / 763-766 (positional starmap into _sift_with_noise)
+     complete_ensemble_sift 747-751 / 771-773 (positional starmap into sift)            [_v0: noise_sifts_v0]
+     get_next_imf_mask 851-868 (functools.partial(get_next_imf, ...) in a Pool)          [_v0: next_imf_mask_v0]
+     get_mask_freqs 902-912 and its call in mask_sift 1055                              [_v0: mask_freqs_v0]
+     mask_sift 1087-1092, sift_second_layer 1164, mask_sift_second_layer 1215 (sift_args unpacked)
+     get_next_imf 117-138, interp_envelope 1410-1425, get_padded_extrema 1254-1264 (fall-backs)
      get_config / SiftConfig item assignment / get_func (delivery routes). *)
 From Coq Require Import ZArith List Bool String.
 From EmdV Require Import lib.NpLite model.Config gen.Gen_Defaults.
